@@ -139,6 +139,14 @@ func runSolver(ctx context.Context, s solverSpec, file string, timeoutS int) (st
 	solverSecs[s.name] += dt
 	solverMu.Unlock()
 	text := out.String()
+	for strings.HasPrefix(strings.TrimSpace(text), "WARNING") {
+		t := strings.TrimSpace(text)
+		if i := strings.Index(t, "\n"); i >= 0 {
+			text = t[i+1:]
+		} else {
+			text = ""
+		}
+	}
 	first := strings.TrimSpace(strings.SplitN(strings.TrimSpace(text), "\n", 2)[0])
 	switch first {
 	case "unsat", "sat", "unknown":
